@@ -197,7 +197,16 @@ pub fn cases(ctx: &Ctx, section: &str, unit: u64) -> Vec<Case> {
                                     .collect();
                                 // an error gadget right after a declaration that is emitted once:
                                 // the diagnostic belongs to the last zz_err_ token of the gadget
-                                let gadget: Vec<String> = match pr.below(26) {
+                                let gadget: Vec<String> = match pr.below(27) {
+                                    // an annotation that is not allowed, on the second
+                                    // declarator of a member declaration (round 10)
+                                    26 => vec![
+                                        "cbuffer zz_CB14 {".into(),
+                                        "float zz_first ,".into(),
+                                        "// between the declarators".into(),
+                                        format!("{indent}zz_err_second : register ( b0 ) ;"),
+                                        "}".into(),
+                                    ],
                                     12 => vec![
                                         "static const int zz_g12 = zz_NS ::".into(),
                                         format!("{indent}  zz_err_leaf ;"),
